@@ -67,6 +67,24 @@ CHECKS.update({
  "C24": ("exploration", "generated value matrix (seeded, boundary pools x random) with a three-way oracle: interpreter vs compiled vs independent reference table of the documented semantics",
          "Every intrinsic operator, constraint and conversion in every overload returns the reference value on thousands of argument tuples from boundary pools, identically in the interpreter and in compiled code (92 operator cells, each exercised >= 20 times).",
          "Argument tuples outside an operator's defined domain are filtered by the reference before evaluation; ord() excluded; regex subset; seeded Python RNG (no shrinking: the failing tuples are listed).", "4/C24"),
+ "C02": ("exploration", "differential testing over generated program bundles (seeded generator): interpreter vs compiled C++ (-c, -C) vs reference evaluator, with attribution of a failing bundle to one sub-program",
+         "Every output relation of every generated sub-program is identical between the interpreter and the compiled executable (and equal to the reference least model where that applies); generated C++ must compile; bundles of 6-10 programs per compile.",
+         "One case costs a C++ compile, so cases are few (tens per quick run) and library shrinking is replaced by per-sub-program attribution; seeded PRNG chooser (replayable trace).", "4/C02"),
+ "C25": ("exploration", "property-based testing (rapidcheck) of generated concurrent insertion histories under a cooperative scheduler with generated schedules, plus bounded-exhaustive schedule enumeration, against a std::multiset model",
+         "Final content, exactly-once success per key, ordered iteration, find/contains/bounds/size/chunks and the tree's own check() agree with the model on every explored interleaving of 2-8 inserting threads over small and default node sizes, with and without hints.",
+         "Sequentially consistent interleavings at hook granularity (lock operations, key-shift loop); reads only after quiescence; no weak-memory effects.", "4/C25"),
+ "C26": ("exploration", "stateful model-based property testing (rapidcheck) of insert/erase/query histories against std::set after every operation, plus the C25 concurrent-insert cases and mixed insert/erase phases on the deletable tree",
+         "Every operation's return value, the iteration order, bounds, size and the structural check agree with the model after every step of generated histories that reach inner-node erases, merges, borrows and root shrinks; concurrent inserts satisfy the C25 oracle.",
+         "btree_delete_multiset::erase cannot be instantiated in the tree (compile-level observation), so erase histories cover btree_delete_set; schedules as C25.", "4/C26"),
+ "C27": ("exploration", "property-based testing (rapidcheck) of concurrent Trie<1..4> insertion histories under a cooperative scheduler (generated schedules + bounded-exhaustive enumeration) against a std::set model",
+         "Content, exactly-once success, iteration, contains/find/size, getBoundaries for every prefix length, partition and insertAll agree with the model on every explored interleaving, for dense, boundary, sparse and mixed-sign 32-bit values.",
+         "lower_bound/upper_bound are judged only for values in [0,64) (two defects outside the property text are printed as NOTE lines); -fno-sanitize=shift because of a benign shift UB in Brie.h.", "4/C27"),
+ "C28": ("exploration", "stateful model-based property testing (rapidcheck) of EquivalenceRelation histories (sequential and concurrent inserts, insertAll, extendAndInsert, clear, cache-building reads) against a naive partition model, plus PiggyList alone",
+         "contains/size/full, per-element and per-pair iteration, partitions and the extendAndInsert post-condition agree with the closure model after every step, including reads on a stale cache and concurrent insertion phases under generated and enumerated schedules.",
+         "The element value -2^31 is excluded from lookup operands (known finding F4, re-probed); -fno-sanitize=enum because of an uninitialised enum copy in end iterators.", "4/C28"),
+ "C31": ("exploration", "property-based testing (rapidcheck) of concurrent interning histories on ConcurrentFlyweight / SymbolTableImpl / SpecializedRecordTable under a cooperative scheduler (OpenMP-lane workers), plus bounded-exhaustive schedule enumeration, against a bijection model",
+         "Equal values get equal references, different values different ones, exactly one insertion per value, every reference decodes to its value, nil is never returned for a record, post-quiescence iteration lists every value once across table growth, and no lock is left taken, on every explored interleaving.",
+         "Iteration is checked after quiescence only (iteration concurrent with interning is unsafe in the tree: noted observation); capacity-0 symbol tables are not generated (they hang: noted observation).", "4/C31"),
 })
 
 def entry(pid):
